@@ -101,3 +101,18 @@ let () = Reg.register "c14.tm" (fun inp out ->
       end
     | _ -> "bad:unparsable" in
   (A "-", verdict))
+
+(* Instantiate followed by Expand: exact comparison of the composed models (group-delayed sortTail) *)
+let () = Reg.register "c14.pipeline" (fun inp out ->
+  let m = get_model inp in
+  let r = Templates.instantiate (nat_of_int 400) m in
+  let m2 = { m with m_params = [];
+             m_nonterms = SL.map (fun ((n, v), g) -> { nt_name = n; nt_params = []; nt_value = v; nt_group = g }) r.Templates.tr_nonterms;
+             m_inputs = r.Templates.tr_inputs; m_sets = r.Templates.tr_sets } in
+  let e = Expand.expand m2 in
+  let model = if r.Templates.tr_fatal || e.Expand.res_error || e.Expand.res_fatal then L [A "err"]
+    else L [A "ok"; put_nonterms e.Expand.res_nonterms; put_inputs e.Expand.res_inputs] in
+  let verdict = match lst out with
+    | [A "ok"; _; _] -> if Expand.expand_checks m2 then "ok" else "bad:side-conditions-of-the-correctness-theorem-do-not-hold"
+    | _ -> "ok" in
+  (model, verdict))
